@@ -995,6 +995,20 @@ func c19(ctx *run.Ctx) {
 		status := status
 		ctx.Case(fmt.Sprintf("tiingo/status%d", status), func(cc *run.Case) {
 			bodies := [][]byte{tiingoDoc(cc.R, 3), []byte(`[]`), []byte(``), []byte(`{"detail":"Not found."}`), []byte(`[{"date":"bad"}]`), []byte(`<html>error</html>`), []byte(`null`)}
+			// explicit sparse documents: a null element, rows that omit members
+			{
+				var generic []map[string]any
+				json.Unmarshal(tiingoDoc(gen.New(7, "sparse"), 3), &generic)
+				if len(generic) == 3 {
+					withNull, _ := json.Marshal([]any{generic[0], nil, generic[1], generic[2]})
+					delete(generic[1], "close")
+					delete(generic[1], "adjClose")
+					delete(generic[2], "volume")
+					delete(generic[2], "high")
+					omitted, _ := json.Marshal(generic)
+					bodies = append(bodies, withNull, omitted)
+				}
+			}
 			valid := tiingoDoc(cc.R, 2)
 			for cut := 0; cut <= len(valid); cut += 7 {
 				bodies = append(bodies, valid[:cut])
